@@ -1,4 +1,5 @@
 import ScnrVerif.Model.Minimize
+import ScnrVerif.Model.FindFrom
 /-!
 # Model of the regex compiler (track A): `nfa.rs`, `multi_pattern_nfa.rs`, `CompiledDfa::from`
 
@@ -268,5 +269,18 @@ def compileLaPre (a : CAst) : Dfa := buildDfa1 (thompson a) 0
 def compilePre (ps : List (Nat × CAst)) : Dfa := buildDfa (mkMNfa 1 ps) (ps.map (·.1))
 
 def compileMode (ps : List (Nat × CAst)) : Dfa := minimize (compilePre ps)
+
+/-- a pattern of a mode: terminal, AST, optional lookahead (positive?, AST) -/
+structure CPat where
+  tid : Nat
+  ast : CAst
+  la : Option (Bool × CAst)
+deriving Repr, Inhabited
+
+/-- `CompiledDfa::try_from_patterns`: the minimized automaton of all patterns plus, per pattern with a
+    lookahead, the minimized automaton of the lookahead expression with its polarity -/
+def compileFull (ps : List CPat) : ModeDfa :=
+  { dfa := compileMode (ps.map fun q => (q.tid, q.ast)),
+    las := ps.filterMap fun q => q.la.map fun l => (q.tid, ⟨l.1, minimize (compileLaPre l.2)⟩) }
 
 end Scnr
